@@ -10,6 +10,7 @@ import common
 from common import sx, q, jq, cname, cnum, ok
 from units import U, BLOCK
 import props.c01 as c01
+import props.c02 as c02
 import props.c05 as c05
 
 ID = 'C17'
@@ -79,6 +80,41 @@ def ha_eval(c, n=None, votes=None):
     return seats, tie
 
 
+def house_clause(n, ra, rb):
+    """C17_house / C17_house_exact on two results (seats, tie) for n and n + 1 seats -> None or the reason it fails.
+    No tie at n: nobody's sure seats drop.  Tie(T, r) at n: the larger house has the same sure seats and reports Tie(T, r + 1), or
+    (r + 1 = |T|) gives every member of T one more sure seat and reports no tie."""
+    (sa, ta), (sb, tb) = ra, rb
+    for p, s in sa.items():
+        if sb.get(p, 0) < s:
+            return 'party %d: %d seats in a house of %d, %d in a house of %d' % (p, s, n, sb.get(p, 0), n + 1)
+    if ta:
+        T, r = sorted(ta[0]), ta[1]
+        if tb:
+            if sorted(tb[0]) != T or tb[1] != r + 1 or sb != sa:
+                return 'Tie(%s, %d) in a house of %d became %s with sure seats %s -> %s (expected the same tie with %d seats)' % (T, r, n, tb, sa, sb, r + 1)
+        else:
+            exp = dict(sa)
+            for p in T:
+                exp[p] = exp.get(p, 0) + 1
+            if len(T) != r + 1 or sb != exp:
+                return 'Tie(%s, %d) in a house of %d was resolved to %s (expected every member one more seat: %s)' % (T, r, n, sb, exp)
+    return None
+
+
+def votes_clause(p, ra, rb):
+    """C17_votes_full on two results (seats, tie), party p has gained votes in the second: (i) its sure seats do not drop,
+    (ii) its possible total (sure seats + the seat it may get out of a reported tie) does not drop - whatever way either run ends."""
+    (sa, ta), (sb, tb) = ra, rb
+    pa = 1 if ta and p in ta[0] else 0
+    pb = 1 if tb and p in tb[0] else 0
+    if sb.get(p, 0) < sa.get(p, 0):
+        return 'party %d holds %d seats for certain, %d after gaining votes' % (p, sa.get(p, 0), sb.get(p, 0))
+    if sb.get(p, 0) + pb < sa.get(p, 0) + pa:
+        return 'party %d can reach %d seats (tie included), only %d after gaining votes' % (p, sa.get(p, 0) + pa, sb.get(p, 0) + pb)
+    return None
+
+
 def house_checks(ctx, stream, cases):
     bad = 0
     cases = list(cases)
@@ -97,21 +133,19 @@ def house_checks(ctx, stream, cases):
             ctx.nontrivial.add(common.case_hash(c))
         if ta:
             ctx.dist['house:tie-at-n'] += 1
-        why = None
-        for p, s in sa.items():
-            if sb.get(p, 0) < s:
-                why = 'party %d: %d seats in a house of %d, %d in a house of %d' % (p, s, c['n'], sb.get(p, 0), c['n'] + 1)
-        if not why and ta:
-            for p in ta[0]:
-                if sb.get(p, 0) + (1 if tb and p in tb[0] else 0) < sa.get(p, 0) + 1:
-                    why = 'tied party %d is worse off in the larger house' % p
+            ctx.dist['house:tie-at-n:%s' % ('kept' if tb else 'resolved')] += 1
+        why = house_clause(c['n'], ra[1], rb[1])
         if why:
             bad += 1
             ctx.checker_false += 1
             ctx.report(stream, dict(c, kind='house'), '%s | %s' % (ra[1], rb[1]), 'n/a', 'house monotonicity: ' + why)
         elif len(ctx.samples) < 2 and ta:
-            ctx.samples.append(dict(stream=stream, case=c, impl='n: %s ; n+1: %s' % (ra[1], rb[1]), model='theorem C17_house'))
+            ctx.samples.append(dict(stream=stream, case=c, impl='n: %s ; n+1: %s' % (ra[1], rb[1]), model='theorem C17_house_exact'))
     ctx.streams[stream] = dict(cases=len(cases), deviations=bad)
+
+
+def vote_increment(rng, vp):
+    return rng.choice([1, 1, max(1, vp // 10), vp if vp else 7, 10 ** 30, Fraction(1, 3)])
 
 
 def votes_checks(ctx, stream, cases, rng):
@@ -122,7 +156,7 @@ def votes_checks(ctx, stream, cases, rng):
             continue
         p = rng.choice(ids)
         vp = q(dict((k, v) for k, v in c['votes'])[p])
-        inc = rng.choice([1, 1, max(1, vp // 10), vp, 10 ** 30, Fraction(1, 3)])
+        inc = vote_increment(rng, vp)
         v2 = [[k, jq(q(v) + inc) if k == p else v] for k, v in c['votes']]
         n += 1
         ctx.evaluations += 1
@@ -137,13 +171,93 @@ def votes_checks(ctx, stream, cases, rng):
             ctx.nontrivial.add(common.case_hash(case))
         if tb:
             ctx.dist['votes:tie-after'] += 1
-            continue
-        if sb.get(p, 0) < sa.get(p, 0):
+        if vp == 0:
+            ctx.dist['votes:from-zero'] += 1
+        why = votes_clause(p, ra[1], rb[1])
+        if why:
             bad += 1
             ctx.checker_false += 1
-            ctx.report(stream, case, '%s | %s' % (ra[1], rb[1]), 'n/a',
-                       'vote monotonicity: party %d has %d seats, %d after gaining %s votes' % (p, sa.get(p, 0), sb.get(p, 0), inc))
+            ctx.report(stream, case, '%s | %s' % (ra[1], rb[1]), 'n/a', 'vote monotonicity: %s (+%s votes)' % (why, inc))
     ctx.streams[stream] = dict(cases=n, deviations=bad)
+
+
+def votes_exhaustive(ctx, stream, cases):
+    """the exhaustive small domain (<= 3 parties, votes 0..3, n 1..4, five divisors): EVERY party gains one vote"""
+    bad = n = 0
+    for c in cases:
+        ra = common.call_impl(lambda: ha_eval(c), 5)
+        for p, vp in c['votes']:
+            v2 = [[k, v + 1 if k == p else v] for k, v in c['votes']]
+            n += 1
+            ctx.evaluations += 1
+            ctx.dist['stream:' + stream] += 1
+            rb = common.call_impl(lambda: ha_eval(c, votes=v2), 5)
+            if ra[0] != 'ok' or rb[0] != 'ok':
+                continue
+            case = dict(c, kind='votes', party=p, inc=1)
+            if ra[1][1] or rb[1][1]:
+                ctx.nontrivial.add(common.case_hash(case))
+            why = votes_clause(p, ra[1], rb[1])
+            if why:
+                bad += 1
+                ctx.checker_false += 1
+                ctx.report(stream, case, '%s | %s' % (ra[1], rb[1]), 'n/a', 'vote monotonicity: %s (+1 vote)' % why)
+    ctx.streams[stream] = dict(cases=n, deviations=bad)
+
+
+# ---- the perturbed election itself against the model, judged by the generalised clauses (spec=): stream ha-mono-pairs
+def ha_wire_result(wire):
+    """(seats, tie) out of the wire value of c01.impl / the model, or None for an error"""
+    v = common.parse_sx(wire)
+    if v[0] != 0:
+        return None
+    gains, tie = v[1]
+    return {k: s for k, s in gains}, ((sorted(tie[0]), tie[1]) if tie else None)
+
+
+def mono_pairs(rng, cases):
+    """every base case twice: with one more seat, and with more votes for one party; the case is the PERTURBED election and carries
+    what has to be undone to get the base election back"""
+    for c in cases:
+        yield dict(c, n=c['n'] + 1, mono=['house'])
+        ids = [k for k, _ in c['votes']]
+        if ids:
+            p = rng.choice(ids)
+            vp = q(dict((k, v) for k, v in c['votes'])[p])
+            inc = vote_increment(rng, vp)
+            yield dict(c, votes=[[k, jq(q(v) + inc) if k == p else v] for k, v in c['votes']], mono=['votes', p, jq(vp)])
+
+
+def mono_base(c):
+    m = c['mono']
+    base = {k: v for k, v in c.items() if k != 'mono'}
+    if m[0] == 'house':
+        base['n'] = c['n'] - 1
+    else:
+        base['votes'] = [[k, m[2] if k == m[1] else v] for k, v in c['votes']]
+    return base
+
+
+def mono_spec(c, io, mo):
+    """the declarative clauses of C17_house_exact / C17_votes_full on the IMPLEMENTATION's output for the perturbed election (io) and
+    its output for the base election"""
+    rb = ha_wire_result(io)
+    if rb is None:
+        return None
+    base = mono_base(c)
+    r = common.call_impl(lambda: c01.impl(base), 5)
+    ra = ha_wire_result(r[1]) if r[0] == 'ok' else None
+    if ra is None:
+        return None
+    if c['mono'][0] == 'house':
+        why = house_clause(base['n'], ra, rb)
+        return 'house monotonicity: ' + why if why else None
+    why = votes_clause(c['mono'][1], ra, rb)
+    return 'vote monotonicity: ' + why if why else None
+
+
+def mono_nontrivial(c):
+    return bool(c['prev'] or c['caps'] or any(q(v) == 0 for _, v in c['votes']) or c01.nontrivial(c))
 
 
 # ------------------------------------------------------------------ sole-winner monotonicity
@@ -888,6 +1002,21 @@ def scorer_stream(ctx, rng):
     ctx.streams['scorer-nonincreasing'] = dict(cases=n, deviations=bad)
 
 
+def lr_paradox(ctx, stream, c):
+    """largest remainder is NOT among the rules the property claims monotone; the kernel-checked witnesses C17_lr_house_refuted /
+    C17_lr_votes_droop_refuted (Props/C17.v) are about the model of LargestRemainder.evaluate: both elections of a witness are
+    compared with that model here, and the loss of the seat is re-observed on the implementation (counted, never a violation)"""
+    two = [dict(unit='largest_remainder', quota=c['quota'], ae=True, pol=1, votes=c['votes'], n=c['n'], prev=[], caps=[]),
+           dict(unit='largest_remainder', quota=c['quota'], ae=True, pol=1, votes=c['votes2'], n=c['n2'], prev=[], caps=[])]
+    ctx.differential(stream, two, c02.model_line, c02.impl, canon=c02.canon, nontrivial=lambda c: True)
+    got = []
+    for e in two:
+        r = common.call_impl(lambda: c02.impl(e), 5)
+        v = common.parse_sx(r[1]) if r[0] == 'ok' else [1]
+        got.append(dict((k, s) for k, s in v[1] if not isinstance(k, list)).get(c['party'], 0) if v[0] == 0 else None)
+    ctx.dist['lr-paradox:%s:%s' % (c['what'], 'reproduced' if got == c['seats'] else 'gone')] += 1
+
+
 def corpus():
     import os, json, glob
     for p in sorted(glob.glob(os.path.join(common.VERIF, 'corpus', ID, '*.json'))):
@@ -905,9 +1034,10 @@ def run_corpus_case(ctx, c, stream='corpus'):
         ra = common.call_impl(lambda: ha_eval(c), 5)
         rb = common.call_impl(lambda: ha_eval(c, votes=v2), 5)
         ctx.evaluations += 1
-        if ra[0] == 'ok' and rb[0] == 'ok' and not rb[1][1] and rb[1][0].get(p, 0) < ra[1][0].get(p, 0):
+        why = votes_clause(p, ra[1], rb[1]) if ra[0] == 'ok' and rb[0] == 'ok' else None
+        if why:
             ctx.checker_false += 1
-            ctx.report(stream, c, '%s | %s' % (ra[1], rb[1]), 'n/a', 'vote monotonicity: party %d loses seats after gaining votes' % p)
+            ctx.report(stream, c, '%s | %s' % (ra[1], rb[1]), 'n/a', 'vote monotonicity: ' + why)
     elif k == 'sole-added':
         ctx.evaluations += 1
         ev = ranked_evaluator(c['rule'])
@@ -941,6 +1071,10 @@ def run_corpus_case(ctx, c, stream='corpus'):
         ctx.differential(stream, [c], c05.hyb_line, c05.hyb_impl, canon=c05.hyb_canon, nontrivial=lambda c: True)
     elif c.get('unit') == 'preference_addition':
         ctx.differential(stream, [c], pa_model_line, pa_impl, canon=pa_canon, nontrivial=pa_nontrivial, spec=pa_spec, known_class=pa_diff_known)
+    elif k == 'lr-paradox':
+        lr_paradox(ctx, stream, c)
+    elif c.get('unit') == 'highest_averages' and c.get('mono'):
+        ctx.differential(stream, [c], c01.model_line, c01.impl, canon=c01.canon, nontrivial=mono_nontrivial, spec=mono_spec)
     elif c.get('unit') == 'highest_averages':
         ctx.differential(stream, [c], c01.model_line, c01.impl, canon=c01.canon, nontrivial=c01.nontrivial)
 
@@ -952,6 +1086,9 @@ def explore(ctx, widen=1):
     kw = dict(canon=c01.canon, nontrivial=c01.nontrivial)
     ctx.differential('ha-tie', itertools.chain(c01.gen_random(rng, ctx.n(500, 6000) * widen), c01.gen_ties(rng, ctx.n(200, 2000) * widen),
                                                c01.gen_zero_caps(rng, ctx.n(100, 1000))), c01.model_line, c01.impl, **kw)
+    ctx.differential('ha-mono-pairs', mono_pairs(rng, itertools.chain(c01.gen_random(rng, ctx.n(700, 8000) * widen), c01.gen_ties(rng, ctx.n(500, 6000) * widen),
+                                                                     c01.gen_zero_caps(rng, ctx.n(300, 3000) * widen))),
+                     c01.model_line, c01.impl, canon=c01.canon, nontrivial=mono_nontrivial, spec=mono_spec)
     pex = list(gen_pa_exhaustive())
     ctx.differential('pa-exhaustive-small', pex if ctx.tier != 'quick' else pex[::3], pa_model_line, pa_impl, canon=pa_canon,
                      nontrivial=pa_nontrivial, spec=pa_spec, known_class=pa_diff_known)
@@ -965,7 +1102,9 @@ def explore(ctx, widen=1):
     house_checks(ctx, 'house-exhaustive-small', ex)
     house_checks(ctx, 'house-random', itertools.chain(c01.gen_random(rng, ctx.n(1500, 20000) * widen), c01.gen_ties(rng, ctx.n(600, 8000) * widen),
                                                       c01.gen_zero_caps(rng, ctx.n(300, 3000) * widen)))
-    votes_checks(ctx, 'votes-random', itertools.chain(c01.gen_random(rng, ctx.n(1500, 20000) * widen), c01.gen_ties(rng, ctx.n(600, 8000) * widen)), rng)
+    votes_checks(ctx, 'votes-random', itertools.chain(c01.gen_random(rng, ctx.n(1500, 20000) * widen), c01.gen_ties(rng, ctx.n(600, 8000) * widen),
+                                                      c01.gen_zero_caps(rng, ctx.n(300, 3000) * widen)), rng)
+    votes_exhaustive(ctx, 'votes-exhaustive-small', ex)
     sole_winner_ranked(ctx, 'sole-winner-ranked', ctx.n(8000, 60000) * widen, rng)
     sole_winner_ranked(ctx, 'sole-winner-beatpath', ctx.n(3000, 20000) * widen, rng, beatpath=True)
     sole_winner_shared(ctx, 'sole-winner-shared-ranks', ctx.n(2500, 30000) * widen, rng)
